@@ -42,7 +42,7 @@ Print Assumptions C20_neofsid_wf.
     of one another (the reference is a map keyed by the whole key). *)
 Theorem C20_config_exact : forall kd init ops,
   let s := crun kd (cinit init) ops in
-  let m := spec_crun (spec_cinit init) ops in
+  let m := spec_crun kd (spec_cinit init) ops in
   (forall k, cget s k = m !! k) /\
   (forall k, cget_call s k = if (length k <=? 58)%nat then Halt (m !! k) else Fault) /\
   map fst (clist s) = skeys m /\
@@ -54,21 +54,32 @@ Proof.
 Qed.
 Print Assumptions C20_config_exact.
 
-Theorem C20_config_last_write : forall m0 ops alpha id key v k,
-  spec_crun m0 (ops ++ [CSet alpha id key v]) !! k =
-  if spec_caccept (CSet alpha id key v) && bytes_eqb key k then Some v else spec_crun m0 ops !! k.
+Theorem C20_config_last_write : forall kd m0 ops alpha id key v k,
+  spec_crun kd m0 (ops ++ [CSet alpha id key v]) !! k =
+  if spec_caccept kd (CSet alpha id key v) && bytes_eqb key k
+  then Some (spec_cval (CSet alpha id key v)) else spec_crun kd m0 ops !! k.
 Proof. exact spec_crun_last. Qed.
 Print Assumptions C20_config_last_write.
 
-(** A call is accepted exactly with the Alphabet's witness (and within the
-    platform's key/value limits); it writes exactly one key; NeoFS notifies. *)
+(** A call is accepted exactly with the Alphabet's witness, a byte-string
+    value (Netmap also takes an Integer / Boolean, stored in canonical form)
+    and within the platform's key/value limits; it writes exactly one key
+    with exactly the bytes passed; NeoFS notifies. *)
 Theorem C20_config_step : forall kd s alpha id key v,
   cstep kd s (CSet alpha id key v) =
-  if spec_caccept (CSet alpha id key v)
-  then (<[config_pfx ++ key := v]> s, VNull, cnotif kd id key v)
+  if spec_caccept kd (CSet alpha id key v)
+  then (<[config_pfx ++ key := spec_cval (CSet alpha id key v)]> s, VNull,
+        cnotif kd id key (spec_cval (CSet alpha id key v)))
   else (s, VFault, []).
 Proof. exact cstep_cases. Qed.
 Print Assumptions C20_config_step.
+
+(** A byte-string value is read back byte for byte, also when it looks like
+    a non-minimal integer encoding. *)
+Theorem C20_config_bytes_verbatim : forall alpha id key b,
+  spec_cval (CSet alpha id key (VBytes b)) = b.
+Proof. reflexivity. Qed.
+Print Assumptions C20_config_bytes_verbatim.
 
 (** * Estimations: refinement and exact cleanup *)
 
@@ -463,11 +474,20 @@ Print Assumptions C20_estimations_list_refuted.
     key): each is read back exactly; the listing has all pairs. *)
 Example C20_config_nonvacuous :
   let s := crun CNeoFS (cinit [([97]%N, [1]%N)])
-             [CSet true [] [97; 98]%N [2]%N; CSet true [] [] [3]%N; CSet false [] [97]%N [9]%N;
-              CSet true [] [97; 98; 99]%N [4]%N; CSet true [] [97; 98]%N [5]%N] in
+             [CSet true [] [97; 98]%N (VBytes [2]%N); CSet true [] [] (VBytes [3]%N);
+              CSet false [] [97]%N (VBytes [9]%N); CSet true [] [97; 98; 99]%N (VBytes [0; 0; 16; 0; 0; 0; 0; 0]%N);
+              CSet true [] [97; 98]%N (VBytes [5]%N); CSet true [] [98]%N (VInt 5)] in
   (map (cget s) [[]; [97]; [97; 98]; [97; 98; 99]; [98]]%N, clist s) =
-  ([Some [3]; Some [1]; Some [5]; Some [4]; None]%N,
-   [([], [3]); ([97], [1]); ([97; 98], [5]); ([97; 98; 99], [4])]%N).
+  ([Some [3]; Some [1]; Some [5]; Some [0; 0; 16; 0; 0; 0; 0; 0]; None]%N,
+   [([], [3]); ([97], [1]); ([97; 98], [5]); ([97; 98; 99], [0; 0; 16; 0; 0; 0; 0; 0])]%N).
+Proof. vm_compute. reflexivity. Qed.
+
+Example C20_config_nonvacuous_typed :
+  let s := crun CNetmap (cinit [])
+             [CSet true [] [97]%N (VInt (-129)); CSet true [] [98]%N (VBool true); CSet true [] [99]%N (VInt 0);
+              CSet true [] [100]%N VNull; CSet true [] [101]%N (VBytes [255; 255; 255]%N)] in
+  map (cget s) [[97]; [98]; [99]; [100]; [101]]%N =
+  [Some [127; 255]; Some [1]; Some []; None; Some [255; 255; 255]]%N.
 Proof. vm_compute. reflexivity. Qed.
 
 Definition OW1 : bytes := repeat 1%N 25.
